@@ -542,11 +542,11 @@ Example ex_run_flushes :
     /\ map (map s_map) (flushes s) = [[[10]; [11]]; [[]; [12]]]
     /\ flush_ids s 1 = [0; 1] /\ flush_ids s 2 = [2]
     /\ put_stamp s 1 = Some 1 /\ take_stamp s 1 = Some 0 /\ put_stamp s 2 = Some 1 /\ take_stamp s 2 = Some 1.
-Proof. eexists. split; [reflexivity|]. repeat split. Qed.
+Proof. eexists. split; [vm_compute; reflexivity|]. vm_compute. repeat split. Qed.
 
 (* a send that would block is simply not enabled: with every slot taken nobody else can Take, and
    the flusher cannot emit before it has collected all k slots *)
 Example ex_blocked :
   run (step [] (@app nat) 1) (init [] 1) [Take 0 [1]; Take 1 [2]] = None
   /\ run (step [] (@app nat) 1) (init [] 1) [Take 0 [1]; DrainStart; DrainEmit] = None.
-Proof. split; reflexivity. Qed.
+Proof. split; vm_compute; reflexivity. Qed.
